@@ -104,6 +104,7 @@ pub fn eval(case: &Case) -> Verdict {
             }
         }
         "parse" => check_parse_range(Kind::from_index(case.i[0] as usize), &case.s[0], &case.s[1]).map(|_| ()),
+        "decode_int" => super::c15::check_decode_int(Kind::from_index(case.i[0] as usize), case.i[1], case.i[2] as usize).map(|_| ()),
         "ts_add_days" => c08::check_add_days(case.i[0], i2f(case.i[1]), case.i[2] != 0).map(|_| ()),
         "ora_add_days" => super::c16::check_add_days(case.i[0] as u8, case.i[1], i2f(case.i[2])).map(|_| ()),
         k => Err(format!("unknown case kind {k}")),
@@ -328,8 +329,36 @@ pub fn run(ctx: &Ctx) -> (Stats, Report) {
     }
     st.section("parse_results_in_range", &mut mark);
 
+    // values produced by Deserialize from integers of every width: in range, never a wrapped image
+    // (same judgement as C15's integer payloads, on a smaller structured set)
+    for kind in KINDS {
+        let (lo, hi) = strat::limits(kind);
+        let mut payloads: Vec<i128> = vec![];
+        for base in [0i128, lo, hi, 19_000, 14, -1] {
+            for k in [8u32, 16, 32, 64] {
+                for m in [-1i128, 1, 2] {
+                    payloads.push(base + m * (1i128 << k));
+                }
+            }
+            payloads.extend([base - 1, base, base + 1]);
+        }
+        payloads.extend([i64::MIN as i128, i64::MAX as i128, u64::MAX as i128, u64::MAX as i128 - 5, i32::MIN as i128, u32::MAX as i128]);
+        for &x in &payloads {
+            for w in 0..super::c15::INT_WIDTHS.len() {
+                st.evaluations += 1;
+                st.nontrivial_enum += 1;
+                match super::c15::check_decode_int(kind, x, w) {
+                    Ok(true) => st.class("deserialized-integer-accepted-in-range"),
+                    Ok(false) => st.class("deserialized-integer-rejected"),
+                    Err(m) => st.fail(0, Case::new(P, "decode_int", vec![kind.index() as i128, x, w as i128], vec![]), m),
+                }
+            }
+        }
+    }
+    st.section("deserialized_integers", &mut mark);
+
     let rep = Report {
-        rule: format!("Operation table of {} safe public functions (constructors from fields and raw counts, conversions, the whole add/sub family, negation, mul/div by f64, 12 trunc + 12 round on three types, last_day_of_month, extract, Oracle-style operations) x cross products of boundary+seeded operand pools (first operand full pool, later operands small pools / extreme scalars incl. i32::MIN, u32::MAX, NaN, infinities), plus proptest-generated operands per unary/binary row. Oracle: every returned value (also each half of an extracted pair) satisfies the range predicate of its type (whole seconds for the Oracle-style date); rows with an exact integer model must return Ok(exact) iff the exact value is in range (no wrap, no clamp); month arithmetic must match the month model or fail. Parse: speller-built texts at, near and past the range edges must give Err or an in-range value. Non-trivial = result within one unit period of a range edge, or an error outcome; distinct by (row, operands).", ops.len()),
+        rule: format!("Operation table of {} safe public functions (constructors from fields and raw counts, conversions, the whole add/sub family, negation, mul/div by f64, 12 trunc + 12 round on three types, last_day_of_month, extract, Oracle-style operations) x cross products of boundary+seeded operand pools (first operand full pool, later operands small pools / extreme scalars incl. i32::MIN, u32::MAX, NaN, infinities), plus proptest-generated operands per unary/binary row. Oracle: every returned value (also each half of an extracted pair) satisfies the range predicate of its type (whole seconds for the Oracle-style date); rows with an exact integer model must return Ok(exact) iff the exact value is in range (no wrap, no clamp); month arithmetic must match the month model or fail. Parse: speller-built texts at, near and past the range edges must give Err or an in-range value. Deserialize: integers of every width (i8..u128, via serde's de::value deserializers) at the limits and shifted by multiples of 2^8..2^64 must give Err or exactly the in-range value they denote. Non-trivial = result within one unit period of a range edge, or an error outcome; distinct by (row, operands).", ops.len()),
         assumptions: vec!["operands are in-range values (built through the checked constructors); scalar arguments are unrestricted".into()],
         exhaustive: false,
         extra: Default::default(),
